@@ -71,3 +71,53 @@ Definition vocabulary_ok (known_preds known_syms : list string) (l : list dstmt)
   forallb no_unknown l
   && forallb (fun p => mem_str p known_preds) (flat_map preds_of l)
   && forallb (fun s => mem_str s known_syms) (flat_map syms_of l).
+
+(* ---- effectful loops: functions that return only an error -------------------------------------- *)
+(* if err := CALL; err != nil { return err } is LCall: the call is made, its failure ends the function.
+   for _, x := range COLL { body } runs the body once per element. *)
+Inductive lstmt :=
+| LCall (call : string)
+| LFor (coll : string) (body : list lstmt)
+| LBind (text : string)
+| LRetNil
+| LUnknown (src : string).
+
+(* a run: the calls that were made and succeeded, in order, tagged with the element of the
+   enclosing loop (None outside a loop); and how it ended *)
+Inductive lend := LDone | LFailed (at_call : string) | LStuck | LFell.
+
+Section LRun.
+  Variable E : Type.
+  Variable fails : string -> option E -> nat -> bool.   (* call, element, number of calls made so far *)
+
+  Fixpoint lrun_body (body : list lstmt) (x : option E) (n : nat) (acc : list (string * option E)) : list (string * option E) * nat * lend :=
+    match body with
+    | [] => (acc, n, LFell)
+    | LCall c :: r => if fails c x n then (acc, S n, LFailed c) else lrun_body r x (S n) (acc ++ [(c, x)])
+    | LBind _ :: r => lrun_body r x n acc
+    | LRetNil :: _ => (acc, n, LDone)
+    | (LFor _ _ | LUnknown _) :: _ => (acc, n, LStuck)    (* no nested loops in this language *)
+    end.
+
+  Fixpoint lrun_for (body : list lstmt) (elems : list E) (n : nat) (acc : list (string * option E)) : list (string * option E) * nat * lend :=
+    match elems with
+    | [] => (acc, n, LFell)
+    | e :: r => match lrun_body body (Some e) n acc with
+                | (acc', n', LFell) => lrun_for body r n' acc'
+                | res => res
+                end
+    end.
+
+  Fixpoint lrun (prog : list lstmt) (elems : list E) (n : nat) (acc : list (string * option E)) : list (string * option E) * nat * lend :=
+    match prog with
+    | [] => (acc, n, LFell)
+    | LFor _ body :: r => match lrun_for body elems n acc with
+                          | (acc', n', LFell) => lrun r elems n' acc'
+                          | res => res
+                          end
+    | LCall c :: r => if fails c None n then (acc, S n, LFailed c) else lrun r elems (S n) (acc ++ [(c, None)])
+    | LBind _ :: r => lrun r elems n acc
+    | LRetNil :: _ => (acc, n, LDone)
+    | LUnknown _ :: _ => (acc, n, LStuck)
+    end.
+End LRun.
